@@ -121,8 +121,20 @@ def confront(case, res, periods, rng):
                 back = json.load(fh)
         finally:
             os.remove(fn)
-        tear = TearsheetStatistics(df.copy(), periods=periods).get_results(df.copy())
-        return js.statistics["strategy"], back["strategy"], tear, df
+        tobj = TearsheetStatistics(df.copy(), periods=periods)
+        same_df = df.copy()
+        tear = tobj.get_results(same_df)
+        # a second call on the same reporter with the very same frame (the first call may have added columns to it),
+        # and the JSON statistics read a second time: the numbers must not move
+        tear_again = tobj.get_results(same_df)
+        again = js.statistics["strategy"]
+        first = js.statistics["strategy"]
+        if not _same_json(_plain(first), _plain(again)):
+            out.append(("reporters", "JSONStatistics.statistics read twice gives different numbers"))
+        for k in ("sharpe", "sortino", "cagr", "max_drawdown", "max_drawdown_duration"):
+            if k in tear and not _eqnan(float(tear[k]), float(tear_again[k])):
+                out.append(("reporters", "TearsheetStatistics.get_results called twice on the same frame: %s %r then %r" % (k, tear[k], tear_again[k])))
+        return first, back["strategy"], tear, df
 
     with warnings.catch_warnings():
         warnings.simplefilter("ignore")
